@@ -736,6 +736,142 @@ func (h *H) predictors() {
 	}
 }
 
+// structuredRows: row sequences that exercise the predictors' bookkeeping between rows and the borrows/carries
+// inside a row: uniform rows, rows equal to / slightly different from the previous row or the row before that
+// (a blank line between two similar lines), ascending and descending values at byte and nibble steps, random rows.
+func structuredRows(r interface {
+	IntN(int) int
+	UintN(uint) uint
+}, rowBytes, rows int) []byte {
+	out := make([]byte, 0, rowBytes*rows)
+	row := func(i int) []byte { return out[i*rowBytes : (i+1)*rowBytes] }
+	pattern := -1
+	if rows >= 3 && r.IntN(2) == 0 {
+		pattern = r.IntN(rows - 2) // rows pattern, pattern+1, pattern+2 are: some row, a uniform row, nearly the first again
+	}
+	for i := 0; i < rows; i++ {
+		cur := make([]byte, rowBytes)
+		kind := r.IntN(7)
+		if pattern >= 0 && i == pattern+1 {
+			kind = 1
+		} else if pattern >= 0 && i == pattern+2 {
+			kind = 6
+		} else if pattern >= 0 && i == pattern && kind == 1 {
+			kind = 0
+		}
+		switch {
+		case kind == 1:
+			v := []byte{0, 0xff, byte(r.UintN(256))}[r.IntN(3)]
+			if i > 0 && rowBytes > 0 && row(i - 1)[0] == v {
+				v ^= 0x5a
+			}
+			for j := range cur {
+				cur[j] = v
+			}
+		case kind == 2 && i > 0:
+			copy(cur, row(i-1))
+		case kind == 3 && i > 0:
+			copy(cur, row(i-1))
+			for k := 0; k < 1+rowBytes/8; k++ {
+				cur[r.IntN(rowBytes)] += byte(1 + r.UintN(3))
+			}
+		case kind == 4 || kind == 5:
+			step := []byte{1, 0x11, 0x10, 0x55, 3, 0x0f}[r.IntN(6)]
+			if kind == 5 {
+				step = -step
+			}
+			v := byte(r.UintN(256))
+			for j := range cur {
+				cur[j] = v
+				v += step
+			}
+		case kind == 6 && i > 1:
+			copy(cur, row(i-2))
+			if rowBytes > 0 && r.IntN(2) == 0 {
+				cur[r.IntN(rowBytes)] ^= 1
+			}
+		default:
+			for j := range cur {
+				cur[j] = byte(r.UintN(256))
+			}
+		}
+		out = append(out, cur...)
+	}
+	return out
+}
+
+// predictorGrid: every predictor x BitsPerComponent x Colors (incl. many channels) x Columns with structured rows,
+// on the predict package directly; and wide many-channel rows of well-compressing data through
+// OpenStream/DecodeStream, i.e. with the budget a stream gets when a file is read.
+func (h *H) predictorGrid() {
+	e := h.e
+	for _, pred := range []int{2, 10, 11, 12, 13, 14, 15} {
+		for _, bpc := range []int{1, 2, 4, 8, 16} {
+			for _, colors := range []int{1, 2, 3, 4, 5, 60, 255} {
+				for _, columns := range []int{1, 2, 3, 8, 17} {
+					if colors > 5 && columns > 3 {
+						continue
+					}
+					g := geom{colors, bpc, columns}
+					for k := 0; k < e.Pick(2, 8); k++ {
+						rows := 3 + e.Rand.IntN(4)
+						h.predictorData(pred, g, structuredRows(e.Rand, g.rowBytes(), rows), rows)
+					}
+				}
+			}
+		}
+	}
+	wide := []geom{{60, 1, 65536}, {255, 1, 20000}, {4, 2, 100000}, {1, 1, 1 << 20}, {3, 8, 30000}, {60, 16, 2000}}
+	for i, g := range wide {
+		for _, pred := range []int{2, 15, 10 + i%5} {
+			if !e.Thorough && pred != 2 && i%2 == 1 {
+				continue
+			}
+			rows := 2 + i%2
+			data := make([]byte, g.rowBytes()*rows) // blank rows: the compressed stream is tiny
+			for j := g.rowBytes(); j < len(data); j += 4099 {
+				data[j] = byte(j)
+			}
+			var f pdf.Filter = pdf.FilterFlate{Predictor: pdf.FlatePredictor(pred), Colors: g.colors, BitsPerComponent: g.bpc, Columns: g.columns}
+			if i%3 == 2 {
+				f = pdf.FilterLZW{Predictor: pdf.FlatePredictor(pred), Colors: g.colors, BitsPerComponent: g.bpc, Columns: g.columns, OffByOne: true}
+			}
+			h.chainCase(pdf.V2_0, []pdf.Filter{f}, data)
+		}
+	}
+}
+
+func (h *H) predictorData(pred int, g geom, data []byte, rows int) {
+	e := h.e
+	p := &predict.Params{Colors: g.colors, BitsPerComponent: g.bpc, Columns: g.columns, Predictor: pred}
+	chunked := e.Rand.IntN(3) == 0
+	buf := &bytes.Buffer{}
+	w, err := predict.NewWriter(nopWC{buf}, p)
+	if err != nil {
+		e.Count(false, "", "rejected:predict")
+		return
+	}
+	err = h.chunkWrite(w, data, chunked)
+	if err == nil {
+		err = w.Close()
+	}
+	var dec []byte
+	if err == nil {
+		var rd io.ReadCloser
+		rd, err = predict.NewReader(io.NopCloser(bytes.NewReader(buf.Bytes())), p, membudget.New(1<<30))
+		if err == nil {
+			dec, err = h.chunkRead(rd, chunked)
+		}
+	}
+	spec := fmt.Sprintf("%d:%d:%d", g.colors, g.bpc, g.columns)
+	if err != nil || !bytes.Equal(dec, data) {
+		h.fail(fmt.Sprintf("rt-predictor-%d", pred),
+			fmt.Sprintf("predictor %d Colors:BitsPerComponent:Columns %s: unpredict(predict(x)) != x (%d structured rows, first difference at offset %d, err=%v)", pred, spec, rows, firstDiff(dec, data), err),
+			map[string]any{"predictor": pred, "geom": spec, "data": common.Hex(data), "chunked": chunked})
+	}
+	e.Count(len(data) > 0, fmt.Sprintf("grid%d%s%x", pred, spec, data), fmt.Sprintf("predictor-grid:%d:bpc%d", pred, g.bpc))
+}
+
 // ---------------------------------------------------------------- Flate / LZW / Compress with parameters
 
 func showDict(d pdf.Dict) string {
@@ -1606,6 +1742,7 @@ func main() {
 	h.simpleCodecs()
 	h.lzwDegenerate()
 	h.predictors()
+	h.predictorGrid()
 	h.flateParams()
 	h.ccittParams()
 	h.randomDicts()
